@@ -29,54 +29,59 @@ Definition env := evar -> Z.
 Inductive ilhs : Type := Li | Lppb | Ltp | LivPos.
 
 (* v[lo:hi] (either bound may be absent; absent both: the variable itself) *)
-Inductive sexp (E : Type) : Type := SE (v : svar) (lo hi : option (string * E)).
-Arguments SE {E}.
+Inductive sexp (T E : Type) : Type := SE (v : svar) (lo hi : option (T * E)).
+Arguments SE {T E}.
 (* byte-valued expressions: val, v[e], a ^ b *)
-Inductive bexp (E : Type) : Type :=
+Inductive bexp (T E : Type) : Type :=
 | BVal
-| BIdx (v : svar) (txt : string) (e : E)
-| BXor (a b : bexp E).
-Arguments BVal {E}. Arguments BIdx {E}. Arguments BXor {E}.
+| BIdx (v : svar) (txt : T) (e : E)
+| BXor (a b : bexp T E).
+Arguments BVal {T E}. Arguments BIdx {T E}. Arguments BXor {T E}.
+(* the methods these bodies call *)
+Inductive callee : Type := KxorKeyStream.
 
-Inductive cstmt (E B : Type) : Type :=
-| CIf (txt : string) (c : B) (th el : list (cstmt E B))
+(* T: the rendered source text (string as translated; unit once forgotten, see notext) *)
+Inductive cstmt (T E B : Type) : Type :=
+| CIf (txt : T) (c : B) (th el : list (cstmt T E B))
 | CReturn                                              (* return *)
-| CPanic (msg : string)                                (* panic("msg") *)
-| CCall (callee : string) (d s : sexp E)               (* cf.<callee>(d, s) *)
+| CPanic (msg : T)                                (* panic("msg") *)
+| CCall (f : callee) (d s : sexp T E)               (* cf.<callee>(d, s) *)
 | CVarSlice (v : svar)                                 (* var v []byte *)
 | CVarInt (v : ilhs)                                   (* var v int *)
 | CVarByte                                             (* var val byte *)
-| CSetSlice (v : svar) (def : bool) (e : sexp E)       (* v = e  /  v := e (def) *)
-| CHint (b : bexp E)                                   (* _ = v[e] *)
-| CLet (v : ilhs) (txt : string) (e : E)               (* v := e / v = e / v += e (e: the new value) *)
-| CFor (init : list (cstmt E B)) (txt : string) (c : B) (post body : list (cstmt E B))
-| CRange (def : bool) (v : svar) (body : list (cstmt E B))   (* for i, val = range v / for i, val := range v *)
-| CEncrypt (d s : sexp E)                              (* cf.c.Encrypt(d, s) *)
-| CXorBytes (d x y : sexp E)                           (* subtle.XORBytes(d, x, y) *)
-| CCopy (d s : sexp E)                                 (* copy(d, s) *)
-| CXorVal (b : bexp E)                                 (* val ^= b *)
-| CStore (v : svar) (txt : string) (e : E) (b : bexp E).   (* v[e] = b *)
+| CSetSlice (v : svar) (def : bool) (e : sexp T E)       (* v = e  /  v := e (def) *)
+| CHint (b : bexp T E)                                   (* _ = v[e] *)
+| CLet (v : ilhs) (txt : T) (e : E)               (* v := e / v = e / v += e (e: the new value) *)
+| CFor (init : list (cstmt T E B)) (txt : T) (c : B) (post body : list (cstmt T E B))
+| CRange (def : bool) (v : svar) (body : list (cstmt T E B))   (* for i, val = range v / for i, val := range v *)
+| CEncrypt (d s : sexp T E)                              (* cf.c.Encrypt(d, s) *)
+| CXorBytes (d x y : sexp T E)                           (* subtle.XORBytes(d, x, y) *)
+| CCopy (d s : sexp T E)                                 (* copy(d, s) *)
+| CXorVal (b : bexp T E)                                 (* val ^= b *)
+| CStore (v : svar) (txt : T) (e : E) (b : bexp T E).   (* v[e] = b *)
 
-Arguments CIf {E B}. Arguments CReturn {E B}. Arguments CPanic {E B}. Arguments CCall {E B}.
-Arguments CVarSlice {E B}. Arguments CVarInt {E B}. Arguments CVarByte {E B}. Arguments CSetSlice {E B}.
-Arguments CHint {E B}. Arguments CLet {E B}. Arguments CFor {E B}. Arguments CRange {E B}.
-Arguments CEncrypt {E B}. Arguments CXorBytes {E B}. Arguments CCopy {E B}. Arguments CXorVal {E B}.
-Arguments CStore {E B}.
+Arguments CIf {T E B}. Arguments CReturn {T E B}. Arguments CPanic {T E B}. Arguments CCall {T E B}.
+Arguments CVarSlice {T E B}. Arguments CVarInt {T E B}. Arguments CVarByte {T E B}. Arguments CSetSlice {T E B}.
+Arguments CHint {T E B}. Arguments CLet {T E B}. Arguments CFor {T E B}. Arguments CRange {T E B}.
+Arguments CEncrypt {T E B}. Arguments CXorBytes {T E B}. Arguments CCopy {T E B}. Arguments CXorVal {T E B}.
+Arguments CStore {T E B}.
 
-Definition sem_stmt := cstmt (env -> Z) (env -> option bool).
-Definition shape_stmt := cstmt unit unit.
+Definition sem_stmt := cstmt string (env -> Z) (env -> option bool).
+Definition shape_stmt := cstmt string unit unit.
+(* what the interpreter runs: the semantic part alone *)
+Definition run_stmt := cstmt unit (env -> Z) (env -> option bool).
 
-Definition shape_bound {E} (b : option (string * E)) : option (string * unit) :=
+Definition shape_bound {T E} (b : option (T * E)) : option (T * unit) :=
   match b with Some (t, _) => Some (t, tt) | None => None end.
-Definition shape_sexp {E} (s : sexp E) : sexp unit :=
+Definition shape_sexp {T E} (s : sexp T E) : sexp T unit :=
   match s with SE v lo hi => SE v (shape_bound lo) (shape_bound hi) end.
-Fixpoint shape_bexp {E} (b : bexp E) : bexp unit :=
+Fixpoint shape_bexp {T E} (b : bexp T E) : bexp T unit :=
   match b with
   | BVal => BVal
   | BIdx v t _ => BIdx v t tt
   | BXor a b => BXor (shape_bexp a) (shape_bexp b)
   end.
-Fixpoint shape {E B} (s : cstmt E B) : shape_stmt :=
+Fixpoint shape {T E B} (s : cstmt T E B) : cstmt T unit unit :=
   match s with
   | CIf t _ th el => CIf t tt (map shape th) (map shape el)
   | CReturn => CReturn
@@ -95,6 +100,38 @@ Fixpoint shape {E B} (s : cstmt E B) : shape_stmt :=
   | CCopy d s => CCopy (shape_sexp d) (shape_sexp s)
   | CXorVal b => CXorVal (shape_bexp b)
   | CStore v t _ b => CStore v t tt (shape_bexp b)
+  end.
+
+(* forget the rendered text, keep the semantic part *)
+Definition notext_bound {T E} (b : option (T * E)) : option (unit * E) :=
+  match b with Some (_, e) => Some (tt, e) | None => None end.
+Definition notext_sexp {T E} (s : sexp T E) : sexp unit E :=
+  match s with SE v lo hi => SE v (notext_bound lo) (notext_bound hi) end.
+Fixpoint notext_bexp {T E} (b : bexp T E) : bexp unit E :=
+  match b with
+  | BVal => BVal
+  | BIdx v _ e => BIdx v tt e
+  | BXor a b => BXor (notext_bexp a) (notext_bexp b)
+  end.
+Fixpoint notext {T E B} (s : cstmt T E B) : cstmt unit E B :=
+  match s with
+  | CIf _ c th el => CIf tt c (map notext th) (map notext el)
+  | CReturn => CReturn
+  | CPanic _ => CPanic tt
+  | CCall c d s => CCall c (notext_sexp d) (notext_sexp s)
+  | CVarSlice v => CVarSlice v
+  | CVarInt v => CVarInt v
+  | CVarByte => CVarByte
+  | CSetSlice v d e => CSetSlice v d (notext_sexp e)
+  | CHint b => CHint (notext_bexp b)
+  | CLet v _ e => CLet v tt e
+  | CFor i _ c p b => CFor (map notext i) tt c (map notext p) (map notext b)
+  | CRange d v b => CRange d v (map notext b)
+  | CEncrypt d s => CEncrypt (notext_sexp d) (notext_sexp s)
+  | CXorBytes d x y => CXorBytes (notext_sexp d) (notext_sexp x) (notext_sexp y)
+  | CCopy d s => CCopy (notext_sexp d) (notext_sexp s)
+  | CXorVal b => CXorVal (notext_bexp b)
+  | CStore v _ e b => CStore v tt e (notext_bexp b)
   end.
 
 (* ---- combinators of the translated conditions (None = panic) ---- *)
